@@ -47,11 +47,13 @@ type Spec struct {
 	MinFreq      map[int]uint64
 	EPP          map[int]string
 	NoDieID      bool
+	CoreIDPerDie bool // core_id restarts at 0 in every die (AMD multi-die packages, device-tree ARM): not unique within a package
 }
 
 // CPU is the reference description of one CPU.
 type CPU struct {
 	ID, Pkg, Die, Node, Core, Cluster int
+	CoreFile                          int // the value written to topology/core_id (Core, or the per-die index)
 	Threads                           []int
 	Online, Isolated, ECore           bool
 	Caches                            []Cache // index order
@@ -116,6 +118,7 @@ func (s *Spec) Model() *Model {
 	for p := 0; p < s.Packages; p++ {
 		coreInPkg := 0
 		for d := 0; d < s.Dies; d++ {
+			coreInDie := 0
 			for n := 0; n < s.NodesPerDie; n++ {
 				node := (p*s.Dies+d)*s.NodesPerDie + n
 				for c := 0; c < s.CoresPerNode; c++ {
@@ -131,12 +134,17 @@ func (s *Spec) Model() *Model {
 					if s.ClusterCores > 0 {
 						cl = coreInPkg / s.ClusterCores
 					}
+					coreFile := coreInPkg
+					if s.CoreIDPerDie {
+						coreFile = coreInDie
+					}
 					for _, id := range ths {
-						m.CPUs[id] = CPU{ID: id, Pkg: p, Die: d, Node: node, Core: coreInPkg, Cluster: cl,
+						m.CPUs[id] = CPU{ID: id, Pkg: p, Die: d, Node: node, Core: coreInPkg, CoreFile: coreFile, Cluster: cl,
 							Threads: ths, Online: !has(s.Offline, id), Isolated: has(s.Isolated, id), ECore: has(s.ECores, id)}
 					}
 					core++
 					coreInPkg++
+					coreInDie++
 				}
 			}
 		}
@@ -361,7 +369,7 @@ func (m *Model) Write(root string) {
 			wr(filepath.Join(t, "die_id"), strconv.Itoa(c.Die))
 		}
 		wr(filepath.Join(t, "cluster_id"), strconv.Itoa(c.Cluster))
-		wr(filepath.Join(t, "core_id"), strconv.Itoa(c.Core))
+		wr(filepath.Join(t, "core_id"), strconv.Itoa(c.CoreFile))
 		wr(filepath.Join(t, "core_cpus_list"), ListString(c.Threads))
 		wr(filepath.Join(t, "thread_siblings_list"), ListString(c.Threads))
 		for i, ch := range c.Caches {
